@@ -705,14 +705,10 @@ theorem fal_step_ok {root : Val} (hroot : ∃ c xs, root = .list c xs) (hko : Ke
           exact hr _ _ _ _ _ _ hinv' f h
     · cases h
     · -- text(): the condition only filters
-      unfold stepText at h
-      split at h
-      · split at h
-        · cases h
-        · split at h
-          · cases h
-          · exact hr _ _ _ _ _ _ hinv.register f h
+      rcases stepText_cases rec node _ _ _ fl ps with h' | h' | ⟨_, h'⟩ <;> rw [h'] at h
       · cases h
+      · cases h
+      · exact hr _ _ _ _ _ _ hinv.register f h
     · -- index
       rename_i i _
       unfold stepIdx at h
